@@ -9,28 +9,28 @@ use crate::Ctx;
 use serde_json::{json, Value};
 
 #[derive(Clone)]
-struct Tok {
-    purpose: &'static str,
+pub struct Tok {
+    pub purpose: &'static str,
     /// unsealing key bytes (local key / public key)
-    key: Vec<u8>,
-    payload: Vec<u8>,
-    footer: Vec<u8>,
-    aad: Vec<u8>,
-    m: Vec<u8>,
+    pub key: Vec<u8>,
+    pub payload: Vec<u8>,
+    pub footer: Vec<u8>,
+    pub aad: Vec<u8>,
+    pub m: Vec<u8>,
 }
 
 #[derive(Clone)]
-struct Fault {
-    kind: &'static str,
-    detail: String,
-    backend: usize,
-    purpose: &'static str,
-    key: Vec<u8>,
-    payload: Vec<u8>,
-    footer: Vec<u8>,
-    aad: Vec<u8>,
+pub struct Fault {
+    pub kind: &'static str,
+    pub detail: String,
+    pub backend: usize,
+    pub purpose: &'static str,
+    pub key: Vec<u8>,
+    pub payload: Vec<u8>,
+    pub footer: Vec<u8>,
+    pub aad: Vec<u8>,
     /// Some(text): offered as this exact string instead of the re-encoded (payload, footer)
-    text: Option<String>,
+    pub text: Option<String>,
 }
 
 fn unseal(b: &Backend, purpose: &str, key: &[u8], tok: &str, aad: &[u8]) -> lab::R<(Vec<u8>, Vec<u8>)> {
@@ -41,13 +41,13 @@ fn model_unseal(m: &mut M, b: &Backend, purpose: &str, key: &[u8], payload: &[u8
     if purpose == "local" { m.local_unseal(b.name, key, b"", payload, footer, aad) } else { m.public_unseal(b.name, key, b"", payload, footer, aad) }
 }
 
-fn fault_json(bs: &[Backend], f: &Fault) -> Value {
+pub fn fault_json(bs: &[Backend], f: &Fault) -> Value {
     json!({"backend": bs[f.backend].name, "purpose": f.purpose, "fault": f.kind, "detail": f.detail, "key": hex::encode(&f.key),
            "payload": hex::encode(&f.payload), "footer": hex::encode(&f.footer), "aad": hex::encode(&f.aad), "text": f.text})
 }
 
 /// all faults of one sealed token
-fn faults(bs: &[Backend], bi: usize, t: &Tok, others: &[Vec<u8>], g: &mut SplitMix64, thorough: bool) -> Vec<Fault> {
+pub fn faults(bs: &[Backend], bi: usize, t: &Tok, others: &[Vec<u8>], g: &mut SplitMix64, thorough: bool) -> Vec<Fault> {
     let b = &bs[bi];
     let mut out = vec![];
     let base = |kind: &'static str, detail: String| Fault { kind, detail, backend: bi, purpose: t.purpose, key: t.key.clone(), payload: t.payload.clone(), footer: t.footer.clone(), aad: t.aad.clone(), text: None };
